@@ -63,7 +63,7 @@ func topCmp(u *Unit) bool {
 	switch u.Form {
 	case FMap, FStruct:
 		return len(u.Members) == 1
-	case FPKSlice, FPKScalar:
+	case FPKSlice, FPKScalar, FColValue:
 		return true
 	case FClause:
 		e, _ := u.Query.(clause.Expression)
